@@ -199,7 +199,11 @@ def axis(draw, max_bins):
         n = draw(st.integers(1, max_bins))
         mn = draw(st.integers(-8, 8)) * w
         ax.update(w=w, n=n, min=mn, incl=draw(st.booleans()))
-        ax["pairs"] = [[mn + i * w, mn + (i + 1) * w] for i in range(n)]
+        # the edges as physt computes them ((times_min + i) * width + shift): generated values and the prediction of
+        # refusals then refer to the real edges, not to edges that are an ulp beside them
+        tm_ = math.floor(mn / w)
+        sh_ = mn - tm_ * w
+        ax["pairs"] = [[(tm_ + i) * w + sh_, (tm_ + i + 1) * w + sh_] for i in range(n)]
     elif form in ("pairs", "static"):
         ax["pairs"] = draw(gen.pairs(1, max_bins, narrow=True))
         ax["incl"] = draw(st.booleans()) if form == "static" else True
